@@ -129,6 +129,21 @@ let parse_case (line : string) : case =
     { hdr; progs = !progs; claims = !claims; mus = !mus; racts = !racts; items = List.rev !items }
   | _ -> failwith "header"
 
+(* for the k-th flush of a case: the restack requests made since the previous flush, in order; and whether
+   any handler re-enters with a restack *)
+let restacks_per_flush (c : case) : (hchange * z) list list =
+  let acc = ref [] and cur = ref [] and made = Hashtbl.create 16 in
+  List.iter (function
+      | Op (ONew (id, _, _, _, _, _, _)) -> Hashtbl.replace made (iz id) ()
+      | Op (ORestack (k, id)) -> if Hashtbl.mem made (iz id) then cur := (k, id) :: !cur
+      | Op OFlush -> acc := List.rev !cur :: !acc; cur := []
+      | _ -> ()) c.items;
+  List.rev !acc
+let has_reentrant_restack (c : case) =
+  List.exists (fun (_, acts) -> List.exists (function RRestack _ -> true | _ -> false) acts) c.racts
+let has_restack (c : case) =
+  has_reentrant_restack c || List.exists (function Op (ORestack _) -> true | _ -> false) c.items
+
 let oracle_of_policy (pol : string) =
   match pol.[0] with
   | 'A' -> pol_accept
@@ -311,7 +326,12 @@ let model (line : string) : string =
       | Op OFlush ->
         let before = !m in
         m := step_re cfg progs (racts_fn c) OFlush !m;
-        sep (); pr "F T="; pr_tree !m.m_root.r_tree;
+        sep (); pr "F U="; pr_tree before.m_root.r_tree;
+        pr " P=";
+        (match before.m_root.r_damage with
+         | [] -> pr "-"
+         | l -> List.iteri (fun k r -> pr "%s%d,%d,%d,%d" (if k > 0 then ";" else "") (iz r.top) (iz r.left) (iz r.lines) (iz r.cols)) l);
+        pr " T="; pr_tree !m.m_root.r_tree;
         pr " B="; pr_grid before.m_term; pr " G="; pr_grid !m.m_term;
         pr " X="; pr_xlog !m.m_xlog; pr_cursor !m.m_term;
         let recs = List.rev !m.m_srecs in
